@@ -26,5 +26,5 @@ MA 02110-1301, USA. */
 void
 mpz_clear (mpz_ptr m)
 {
-  (*__gmp_free_func) (m->_mp_d, m->_mp_alloc * BYTES_PER_MP_LIMB);
+  (*__gmp_free_func) (m->_mp_d, (size_t) m->_mp_alloc * BYTES_PER_MP_LIMB);
 }
